@@ -69,11 +69,12 @@ impl Ctx {
 
 /// op code of a task: 1000 + 2*priority + stealable + 10000*behaviour
 /// behaviour 0 = returns at once, 1 = yields once, 2 = sleeps 1 ms, 3 = returns Err, 4 = yields 3 times,
-/// 5 = submits a child task (id = n + own id) to the same executor from inside the worker
+/// 5 = submits a child task (id = n + own id) to the same executor from inside the worker,
+/// 6 = counts itself, then panics
 fn code_prio(c: i64) -> u8 { (((c % 10000) - 1000) / 2) as u8 }
 fn code_steal(c: i64) -> bool { ((c % 10000) - 1000) % 2 == 1 }
 fn code_beh(c: i64) -> u8 { (c / 10000) as u8 }
-fn is_task_code(c: i64) -> bool { c % 10000 >= 1000 && c % 10000 < 1512 && c >= 0 && c < 60000 }
+fn is_task_code(c: i64) -> bool { c % 10000 >= 1000 && c % 10000 < 1512 && c >= 0 && c < 70000 }
 
 struct CountTask {
     id: usize,
@@ -101,6 +102,7 @@ impl Task for CountTask {
                 }
             }
             self.counters[self.id].fetch_add(1, Ordering::SeqCst);
+            if self.beh == 6 { panic!("task panicked"); }
             if self.beh == 3 { Err(ZiporaError::configuration("task failed")) } else { Ok(()) }
         })
     }
@@ -122,7 +124,7 @@ fn rand_code(r: &mut Rng, prio_mix: u64, beh_mix: bool) -> i64 {
         _ => *r.pick(&[0u64, 1, 2, 127, 254, 255]),
     };
     let steal = if r.chance(3, 4) { 1 } else { 0 };
-    let beh = if beh_mix { *r.pick(&[0u64, 0, 0, 1, 2, 3, 4, 5]) } else { 0 };
+    let beh = if beh_mix { *r.pick(&[0u64, 0, 0, 0, 1, 2, 3, 4, 5, 0, 1, 2, 3, 4, 5, 6]) } else { 0 };
     (1000 + 2 * prio + steal + 10000 * beh) as i64
 }
 
@@ -1047,7 +1049,7 @@ fn enumerate_queue(cx: &mut Ctx, len: usize, alphabet: &[i64], cap: usize, strid
 
 pub fn run(args: &Args) {
     let mut cx = Ctx {
-        sum: Summary::new("C18", "corpus; all WorkStealingQueue histories of <= 6 operations over push(prio 0/1, stealable or not)/pop_local/steal/balance + random histories around the capacity; the running executor with 1, 2, 3, 4 workers on current-thread and multi-thread runtimes, task counts around workers*capacity, around the global overflow and around the balance trigger (100 executed), mixed priorities/stealability/task behaviour (incl. tasks that submit children from inside a worker), workers busy / idle / idle for 120 ms when the tasks arrive, a second wave after a complete drain; executor histories through the paused-executor hook (all interleavings of submit/find_task/balance of small shape for 1 and 2 workers + random ones for 1..4 workers); parallel_map/for_each/reduce, process_batch, execute_stream, BatchCollector and the yield/aio helpers on vectors of length 0..40 with and without failing, panicking and timed-out items, concurrency limits, batch sizes and yield intervals 0, 1, 2, around the input length and beyond. A case is non-trivial when it has >= 2 tasks/items (queue histories: >= 2 pushes and a steal or balance); distinct = distinct canonical case text"),
+        sum: Summary::new("C18", "corpus; all WorkStealingQueue histories of <= 6 operations over push(prio 0/1, stealable or not)/pop_local/steal/balance + random histories around the capacity; the running executor with 1, 2, 3, 4 workers on current-thread and multi-thread runtimes, task counts around workers*capacity, around the global overflow and around the balance trigger (100 executed), mixed priorities/stealability/task behaviour (incl. tasks that fail, that panic, and that submit children from inside a worker), workers busy / idle / idle for 120 ms when the tasks arrive, a second wave after a complete drain; executor histories through the paused-executor hook (all interleavings of submit/find_task/balance of small shape for 1 and 2 workers + random ones for 1..4 workers); parallel_map/for_each/reduce, process_batch, execute_stream, BatchCollector and the yield/aio helpers on vectors of length 0..40 with and without failing, panicking and timed-out items, concurrency limits, batch sizes and yield intervals 0, 1, 2, around the input length and beyond. A case is non-trivial when it has >= 2 tasks/items (queue histories: >= 2 pushes and a steal or balance); distinct = distinct canonical case text"),
         shards: CoqShards::new(&header(), 300),
         budget: if args.thorough { [5000, 600, 1200, 1200, 1200, 600, 4000, 1200] } else { [400, 60, 150, 120, 120, 60, 400, 120] },
         used: [0; 8],
